@@ -25,7 +25,8 @@ CONSTANTS
     MaxDeliver, \* bound on the number of Deliver steps
     CheckMoney, \* TRUE: the money-range rule is part of validity (FALSE models the code before the fix)
     CheckBIP68, \* TRUE: BIP68 relative lock-times are part of validity
-    AllowBal    \* TRUE: the balance index may be switched off and on between deliveries (C17)
+    AllowBal,   \* TRUE: the balance index may be switched off and on between deliveries (C17)
+    AllowIdle   \* TRUE: Chain.Idle() calls are interleaved with the deliveries
 
 Maturity == 100
 SigopLimit == 80000
@@ -41,9 +42,10 @@ VARIABLES
     undo,       \* [height -> set of utxo entries spent by the block connected at that height] (undo/<height> files)
     nDeliv,     \* number of Deliver steps so far
     balOn,      \* the balance index is enabled
+    flushed,    \* blocks already written to the block files by Chain.Idle (matters for how a branch is deleted)
     last        \* outcome of the last step (observation): [accepted, refusedLater, viol]
 
-vars == <<known, kids, tip, utxo, undo, nDeliv, balOn, last>>
+vars == <<known, kids, tip, utxo, undo, nDeliv, balOn, flushed, last>>
 
 Range(s) == {s[i] : i \in 1..Len(s)}
 
@@ -131,7 +133,10 @@ Connect(b, u, h) ==
         cbsum == AmtSumSeq([k \in 1..Len(bd.cbouts) |-> bd.cbouts[k].amt])
         vc == IF r.feesKnown /\ AmtLT(AmtAdd(Subsidy(h), r.fees), cbsum) THEN {"claim"} ELSE {}
         vcr == IF CheckMoney /\ ~InRange(cbsum) THEN {"range"} ELSE {}
-        vs == IF r.sops > SigopLimit THEN {"sigops"} ELSE {}
+        cbsops == LET F[k \in 0..Len(bd.cbouts)] == IF k = 0 THEN 0
+                                                      ELSE F[k - 1] + (IF bd.cbouts[k].st \in {7, 8} THEN 4 * bd.cbouts[k].addr ELSE 0)
+                  IN F[Len(bd.cbouts)]      \* the coinbase's output scripts count too (types 7/8: addr x OP_CHECKSIG)
+        vs == IF r.sops + cbsops > SigopLimit THEN {"sigops"} ELSE {}
         viol == r.viol \cup vc \cup vcr \cup vs
         after == r.u \cup Entries(CbTx(b), h)
     IN [viol |-> viol, u |-> after, spent |-> u \ r.u]
@@ -153,6 +158,7 @@ Init ==
     /\ undo = [h \in {} |-> {}]
     /\ nDeliv = 0
     /\ balOn = TRUE
+    /\ flushed = {}
     /\ last = [accepted |-> FALSE, later |-> FALSE, viol |-> {}]
 
 RemoveKid(kd, p, c) == [kd EXCEPT ![p] = SelectSeq(@, LAMBDA x : x # c)]
@@ -225,12 +231,17 @@ Deliver(b) ==
                /\ utxo' = st1.utxo /\ undo' = st1.undo
                /\ last' = [accepted |-> (st1.tip = b) \/ (b \in st1.known /\ Work(b) <= Work(tip)),
                            later |-> FALSE, viol |-> st1.fviol]   \* rules broken by the blocks a failed reorganisation ran into
+    /\ flushed' = flushed \cap known'
 
 \* client/wallet: LoadBalancesFromUtxo / Disable
-BalEnable == /\ AllowBal /\ ~balOn /\ balOn' = TRUE /\ UNCHANGED <<known, kids, tip, utxo, undo, nDeliv, last>>
-BalDisable == /\ AllowBal /\ balOn /\ balOn' = FALSE /\ UNCHANGED <<known, kids, tip, utxo, undo, nDeliv, last>>
+BalEnable == /\ AllowBal /\ ~balOn /\ balOn' = TRUE /\ UNCHANGED <<known, kids, tip, utxo, undo, nDeliv, flushed, last>>
+BalDisable == /\ AllowBal /\ balOn /\ balOn' = FALSE /\ UNCHANGED <<known, kids, tip, utxo, undo, nDeliv, flushed, last>>
 
-Next == (\E b \in Blocks : Deliver(b)) \/ BalEnable \/ BalDisable
+\* Chain.Idle(): the queued blocks reach the block files (and a snapshot save may start: see ChainStore / UtxoSave).
+\* For the ledger this is a no-op - which is the point: deliveries interleaved with Idle must behave the same.
+Idle == /\ AllowIdle /\ flushed # known /\ flushed' = known /\ UNCHANGED <<known, kids, tip, utxo, undo, nDeliv, balOn, last>>
+
+Next == (\E b \in Blocks : Deliver(b)) \/ BalEnable \/ BalDisable \/ Idle
 Spec == Init /\ [][Next]_vars
 
 ----------------------------------------------------------------------------
